@@ -38,6 +38,7 @@ structure Layout where
   cOthers : List (Nat × Nat)
   defaultTitle : Str
   loadedTitle : Str    -- "PDB file loaded by IOData"
+  keyW : Nat           -- `_dump_multiline_str`: `key.ljust(10)`, `str(iline + 2).rjust(10 - len(key)) + " "`
   deriving DecidableEq, Repr
 
 structure Atom where
@@ -54,9 +55,10 @@ structure Atom where
   deriving DecidableEq, Repr
 
 structure Obj where
-  title : Str
+  title : Str                  -- may have several lines
   atoms : List Atom
   bonds : List (Nat × Nat)     -- zero-based pairs (the bond type is not stored by PDB)
+  compound : Option Str        -- `extra["compound"]` (may have several lines)
   deriving DecidableEq, Repr
 
 def recAtom : Str := ['A','T','O','M',' ',' ']
@@ -83,8 +85,10 @@ def dumpAtomsFrom (T : Tables) (L : Layout) : Nat → List Atom → List Str
   | k, a :: as => dumpAtom T L (k + 1) a :: dumpAtomsFrom T L (k + 1) as
 
 /-- `connections[iatom0].append(iatom1); connections[iatom1].append(iatom0)` -/
+def partner (a : Nat) (p : Nat × Nat) : List Nat := (if p.1 = a then [p.2] else []) ++ (if p.2 = a then [p.1] else [])
+
 def connections (natom : Nat) (bonds : List (Nat × Nat)) : List (List Nat) :=
-  (List.range natom).map fun a => bonds.flatMap fun (i, j) => (if i = a then [j] else []) ++ (if j = a then [i] else [])
+  (List.range natom).map fun a => bonds.flatMap (partner a)
 
 def chunk4 : Nat → List Nat → List (List Nat)
   | 0, _ => []
@@ -102,10 +106,33 @@ def dumpConect (L : Layout) (natom : Nat) (bonds : List (Nat × Nat)) : List Str
 
 def outTitle (L : Layout) (t : Str) : Str := if t.isEmpty then L.defaultTitle else t
 
+/-- `value.split("\n")` -/
+def splitNl : Str → List Str
+  | [] => [[]]
+  | c :: cs =>
+    if c == '\n' then [] :: splitNl cs else
+    match splitNl cs with
+    | [] => [[c]]
+    | l :: ls => (c :: l) :: ls
+
+/-- `key + str(iline + 2).rjust(10 - len(key)) + " "`: the prefix of a continuation record -/
+def contPrefix (L : Layout) (key : Str) (n : Nat) : Str := key ++ (rjust (L.keyW - key.length) (natToDec n) ++ [' '])
+
+def multiFrom (L : Layout) (key : Str) : Nat → List Str → List Str
+  | _, [] => []
+  | k, l :: ls => (contPrefix L key (k + 1) ++ (l ++ ['\n'])) :: multiFrom L key (k + 1) ls
+
+/-- `_dump_multiline_str`: the first record carries the key padded to ten columns, record `n ≥ 2` the number `n`
+right-justified in the columns up to ten and one blank -/
+def multiLines (L : Layout) (key : Str) (value : Str) : List Str :=
+  match splitNl value with
+  | [] => []
+  | l :: ls => (ljust L.keyW key ++ (l ++ ['\n'])) :: multiFrom L key 1 ls
+
 /-- `dump_one` (bonds `None` or empty: no CONECT records) -/
 def dump (T : Tables) (L : Layout) (o : Obj) : List Str :=
-  (recTitle ++ (outTitle L o.title ++ ['\n'])) :: (dumpAtomsFrom T L 0 o.atoms
-    ++ (dumpConect L o.atoms.length o.bonds ++ [recEnd]))
+  multiLines L kTitle (outTitle L o.title) ++ ((match o.compound with | none => [] | some c => multiLines L kCompnd c) ++
+    (dumpAtomsFrom T L 0 o.atoms ++ (dumpConect L o.atoms.length o.bonds ++ [recEnd])))
 
 def dumpE (T : Tables) (L : Layout) (o : Obj) : Except Unit (List Str) :=
   if o.atoms.all (fun a => (T.sym? a.zn).isSome) && o.bonds.all (fun b => b.1 < o.atoms.length && b.2 < o.atoms.length)
@@ -134,22 +161,22 @@ def parseAtom (T : Tables) (L : Layout) (line : Str) : R Atom :=
         .ok ⟨zn, name, strip (sl L.sRes line), chain, rn, x, y, z, occ, b⟩
       | _, _, _, _, _, _ => .error .float
 
+/-- one pass of `for ipos in 11, 16, 21, 26` of `_parse_pdb_conect_line` (`acc`: what the later positions gave) -/
+def conectField (a : Int) (line : Str) (p : Nat × Nat) (acc : R (List (Nat × Nat))) : R (List (Nat × Nat)) :=
+  match acc with
+  | .error e => .error e
+  | .ok rest =>
+    let t := strip (sl p line)
+    if t.isEmpty then .ok rest else
+    match pyInt t with
+    | none => .error .int
+    | some s1 => if a < s1 - 1 then (if 0 ≤ a then .ok ((a.toNat, (s1 - 1).toNat) :: rest) else .error .format) else .ok rest
+
 /-- `_parse_pdb_conect_line`: zero-based pairs with `iatom1 > iatom0` -/
 def parseConect (L : Layout) (line : Str) : R (List (Nat × Nat)) :=
   match pyInt (sl L.cSerial line) with
   | none => .error .int
-  | some s0 =>
-    let a : Int := s0 - 1
-    L.cOthers.foldr (fun p acc =>
-      match acc with
-      | .error e => .error e
-      | .ok rest =>
-        let t := strip (sl p line)
-        if t.isEmpty then .ok rest else
-        match pyInt t with
-        | none => .error .int
-        | some s1 => if a < s1 - 1 then (if 0 ≤ a then .ok ((a.toNat, (s1 - 1).toNat) :: rest) else .error .format) else .ok rest)
-      (.ok [])
+  | some s0 => L.cOthers.foldr (conectField (s0 - 1) line) (.ok [])
 
 structure St where
   titles : List Str
@@ -216,9 +243,16 @@ def normBonds (natom : Nat) (bonds : List (Nat × Nat)) : List (Nat × Nat) :=
   (connections natom bonds).zipIdx.flatMap fun (cs, a) => (cs.filter (a < ·)).map fun b => (a, b)
 
 def norm (L : Layout) (o : Obj) : Loaded :=
-  ⟨outTitle L o.title, none, o.atoms, !o.atoms.all (fun a => a.chain == ' '), normBonds o.atoms.length o.bonds⟩
+  ⟨outTitle L o.title, o.compound, o.atoms, !o.atoms.all (fun a => a.chain == ' '), normBonds o.atoms.length o.bonds⟩
 
-def okTitle (t : Str) : Bool := decide (Trimmed t) && !t.contains '\n'
+/-- every line is free of outer blanks (the reader strips them) and the continuation numbers fit `w` columns -/
+def okLines (w : Nat) (s : Str) : Bool := (splitNl s).all (fun l => decide (Trimmed l)) && decide ((splitNl s).length < 10 ^ w)
+
+def okTitle (L : Layout) (t : Str) : Bool := okLines (L.keyW - kTitle.length) t
+
+def okCompound (L : Layout) : Option Str → Bool
+  | none => true
+  | some c => okLines (L.keyW - kCompnd.length) c
 
 def fitsFx (w d : Nat) (v : Fx) : Bool := decide ((fixCore false d v).length ≤ w)
 
@@ -241,7 +275,7 @@ instance (T : Tables) (L : Layout) (a : Atom) : Decidable (AtomOK T L a) := by u
 
 /-- writer columns = reader slices -/
 def LayoutOK (L : Layout) : Prop :=
-  okTitle L.defaultTitle = true ∧ L.defaultTitle ≠ [] ∧ 2 ≤ L.symW ∧ L.titleFrom = 10 ∧
+  okTitle L L.defaultTitle = true ∧ L.defaultTitle ≠ [] ∧ 2 ≤ L.symW ∧ L.titleFrom = 10 ∧
   L.sName = (7 + L.serialW, 7 + L.serialW + L.nameW) ∧
   L.sRes = (8 + L.serialW + L.nameW, 8 + L.serialW + L.nameW + L.resW) ∧
   L.iChain = 9 + L.serialW + L.nameW + L.resW ∧
@@ -253,12 +287,25 @@ def LayoutOK (L : Layout) : Prop :=
 
 instance (L : Layout) : Decidable (LayoutOK L) := by unfold LayoutOK; infer_instance
 
-/-- domain of the model without CONECT records: single-line title, every atom fits, serials fit -/
-def Dom (T : Tables) (L : Layout) (o : Obj) : Prop :=
-  okTitle o.title = true ∧ o.atoms ≠ [] ∧ o.atoms.length < 10 ^ L.serialW ∧ 0 < L.serialW ∧
-  (∀ a ∈ o.atoms, AtomOK T L a) ∧ o.bonds = []
+/-- `n` consecutive columns of width `w` starting at `p` -/
+def colsFrom (p w : Nat) : Nat → List (Nat × Nat)
+  | 0 => []
+  | n + 1 => (p, p + w) :: colsFrom (p + w) w n
 
-instance (T : Tables) (L : Layout) (o : Obj) : Decidable (Dom T L o) := by unfold Dom; infer_instance
+/-- the CONECT reader cuts the columns the CONECT writer fills: `CONECT`, the serial, four partners -/
+def ConectOK (L : Layout) : Prop :=
+  L.cSerial = (6, 6 + L.conW) ∧ L.cOthers = colsFrom (6 + L.conW) L.conW 4 ∧ L.keyW = L.titleFrom
+
+instance (L : Layout) : Decidable (ConectOK L) := by unfold ConectOK; infer_instance
+
+/-- domain of the model: title and compound of any number of lines, every atom fits its columns, any list of bonds between
+existing atoms whose serials fit the CONECT columns -/
+def DomB (T : Tables) (L : Layout) (o : Obj) : Prop :=
+  okTitle L o.title = true ∧ okCompound L o.compound = true ∧ o.atoms ≠ [] ∧ o.atoms.length < 10 ^ L.serialW ∧ 0 < L.serialW ∧
+  (∀ a ∈ o.atoms, AtomOK T L a) ∧ o.atoms.length < 10 ^ L.conW ∧ 0 < L.conW ∧
+  (∀ b ∈ o.bonds, b.1 < o.atoms.length ∧ b.2 < o.atoms.length)
+
+instance (T : Tables) (L : Layout) (o : Obj) : Decidable (DomB T L o) := by unfold DomB; infer_instance
 
 end Iodata.Fmt.Pdb
 
